@@ -108,6 +108,16 @@ def run_case(case: Dict[str, Any], ctx) -> None:
     prog = progs.gen_program(rng, family_profile(case["family"]))
     m, src = progs.build_module(prog, case["seed"])
     ctx.sample({"emitted_source": src, "chain": case["chain"], "format": case["fmt"]})
+    if case["seed"] % 3 == 0:
+        # some directly held parameters become float BUFFERS (the statement names buffers: unchanged, no storage shared)
+        brng = rng_for(case["seed"], "buffers")
+        direct = [n for n, _ in m.named_parameters() if "." not in n]
+        for n in direct[1:]:  # keep at least one trainable leaf
+            if brng.random() < 0.5:
+                p = m._parameters.pop(n)
+                m.register_buffer(n, p.detach().clone())
+        if any(True for _ in m.buffers()):
+            ctx.count("form:module-with-float-buffers")
     inputs = progs.make_inputs(prog, case["seed"] + 5)
     chain, fmt = case["chain"], case["fmt"]
     key = "C17"
@@ -265,6 +275,7 @@ def run_case(case: Dict[str, Any], ctx) -> None:
         if "compile" not in chain and not (case["family"] == "uu" and "us" in chain):
             params = {k: v for k, v in result.named_parameters()}
             pref = {k: v.detach().clone().requires_grad_(True) for k, v in params.items()}
+            pref.update({k: v.detach().clone() for k, v in result.named_buffers() if k not in pref})
             ins_r = [t.detach().clone().requires_grad_(True) if t.is_floating_point() else t.clone() for t in inputs]
             with pinned_randint(shape_keyed_randint):
                 mod_attrs = {md["name"]: {"constraint": "to_output_scale"} for md in prog["mods"] if md["type"] == "uu.Linear"}
